@@ -10,12 +10,13 @@
 (* registry was created) and the observed outcomes - never the model state.  *)
 EXTENDS MultiReg, IOUtils
 Traces == JsonDeserialize(IOEnv.TRACES)
-VARIABLES tid, l, pgrp, proute, dfoo, ddef, sync
-tvars == <<vars, tid, l, pgrp, proute, dfoo, ddef, sync>>
+VARIABLES tid, l, pgrp, proute, pdef, dfoo, ddef, sync
+tvars == <<vars, tid, l, pgrp, proute, pdef, dfoo, ddef, sync>>
 KeyIdx(k) == CHOOSE i \in DOMAIN KeySeq : KeySeq[i] = k
 ProbeIdx(p) == CHOOSE i \in DOMAIN ProbeSeq : ProbeSeq[i] = p
 
 PInit == /\ pgrp = [r \in RegIds |-> r] /\ proute = [r \in RegIds |-> IF r = 0 THEN "default" ELSE "none"]
+         /\ pdef = [r \in RegIds |-> r = 0]
          /\ dfoo = FALSE /\ ddef = FALSE /\ sync = TRUE
 TraceInit == Init /\ tid = 1 /\ l = 1 /\ PInit
 
@@ -27,7 +28,8 @@ StepAction(e) ==
     [] e.op = "remove" -> Remove(e.r, e.sym)
     [] e.op = "contains" -> Contains(e.r, e.sym)
     [] e.op = "unit" -> Construct(e.r, e.str)
-    [] e.op = "define" -> DefineDefault(e.scale, e.pfx)
+    [] e.op = "define" -> DefineUnit(e.r, e.scale, e.pfx)
+    [] e.op = "handle" -> ShallowHandle(e.r, e.how)
     [] e.op = "new" -> NewPlain(e.defs, e.usys)
     [] e.op = "lutalias" -> NewLutAlias(e.r, e.defs)
     [] e.op = "lutcopy" -> NewLutCopy(e.r)
@@ -50,7 +52,10 @@ ModelLutOf(r) == MinWith({q \in RegIds : regs'[q].live /\ regs'[q].d = regs'[r].
 ModelCacheOf(r) == MinWith({q \in RegIds : regs'[q].live /\ regs'[q].c = regs'[r].c})
 ResOk(e) ==
   CASE last'.k = "new" -> e.obs.k = "new" /\ e.obs.r = last'.r
-    [] last'.k = "res" -> e.obs.k = "res" /\ ((e.op = "binop" /\ e.warm) \/ e.obs.r = last'.r)
+    \* the result carries a registry object on the predicted TABLE (a memoised unit belongs to whichever handle built it)
+    [] last'.k = "res" -> e.obs.k = "res" /\ ((e.op = "binop" /\ e.warm) \/
+                           (e.obs.r \in RegIds /\ regs'[e.obs.r].live /\ regs'[e.obs.r].d = regs'[last'.r].d))
+    [] last'.k = "same" -> e.obs.k = "same" /\ e.obs.r \in RegIds /\ regs'[e.obs.r].live /\ regs'[e.obs.r].d = regs'[last'.r].d
     [] OTHER -> last' = e.obs
 TOk(e) == /\ ResOk(e)
           /\ \A r \in RegIds : regs'[r].live = e.live[r + 1]
@@ -63,35 +68,38 @@ TOk(e) == /\ ResOk(e)
 
 (* ------------------------------- P ------------------------------- *)
 Edit(e) == e.op \in {"add", "modify", "remove", "define"}
-Creation(e) == e.op \in {"new", "lutalias", "lutcopy", "json", "deepcopy", "unpickle", "unitcopy"}
-\* groups of registries NOT independently created: only lut= (the caller handed over the same dict)
-PGrp(e) == IF Creation(e) /\ e.obs.k = "new" THEN [pgrp EXCEPT ![e.obs.r] = IF e.op = "lutalias" THEN pgrp[e.r] ELSE e.obs.r] ELSE pgrp
+Creation(e) == e.op \in {"new", "lutalias", "lutcopy", "json", "deepcopy", "unpickle", "unitcopy", "handle"}
+\* groups of registries NOT independently created: lut= (the caller handed over the same dict) and shallow handles
+PGrp(e) == IF Creation(e) /\ e.obs.k = "new" THEN [pgrp EXCEPT ![e.obs.r] = IF e.op \in {"lutalias", "handle"} THEN pgrp[e.r] ELSE e.obs.r] ELSE pgrp
+\* which registry objects are the default registry: registry 0 and every shallow handle (copy.copy) on it
+PDef(e) == IF e.op = "handle" /\ e.obs.k = "new" THEN [pdef EXCEPT ![e.obs.r] = pdef[e.r]] ELSE pdef
 PRoute(e) == IF Creation(e) /\ e.obs.k = "new" THEN [proute EXCEPT ![e.obs.r] = e.op] ELSE proute
-PMayChange(e) == IF e.op \in {"binop", "rebind", "convert", "new"} \/ (e.r = 0 /\ e.op \in {"modify", "remove"}) THEN {}
+PMayChange(e) == IF e.op \in {"binop", "rebind", "convert", "new"} \/ (pdef[e.r] /\ e.op \in {"modify", "remove"}) THEN {}
                  ELSE {pgrp[e.r]}
 \* C13_Frame on the observation: which registries resolve something else than before the call
 Victims(e) == {r \in RegIds : Prev.live[r + 1] /\ e.live[r + 1] /\ pgrp[r] \notin PMayChange(e) /\ e.dig[r + 1] # Prev.dig[r + 1]}
-DFoo(e) == dfoo \/ (e.r = 0 /\ e.op \in {"add", "define"})
+DFoo(e) == dfoo \/ (pdef[e.r] /\ e.op \in {"add", "define"})
 DDef(e) == ddef \/ (e.r = 0 /\ e.op = "define")
 \* classification of a binary operation whose result does not carry the left operand's registry
 \* does registry[k] succeed on the observed table rows (a row, or a prefixable base row)?  This is the documented
 \* look-up rule, evaluated on the observation; the left operand's registry "lacks" a symbol of the operation when not
 RowOk(rows, k) == rows[KeyIdx(k)][1] # 0 \/ (IsPrefixed(k) /\ rows[KeyIdx(Base(k))][1] # 0 /\ rows[KeyIdx(Base(k))][2])
 LeftLacks(e) == ~RowOk(Prev.rows[e.r + 1], e.str2) \/ ~RowOk(Prev.rows[e.r + 1], e.str)
-MixCls(e) == IF e.r = e.r2 THEN (IF e.warm THEN "same-registry-lru" ELSE "same-registry-cold")
-             ELSE IF e.obs.r = e.r2 THEN (IF LeftLacks(e) THEN "right-fallback" ELSE IF e.warm THEN "right-lru" ELSE "right-cold")
+\* the operands' registries are the registry objects the operands actually carry (obs.lreg / obs.rreg)
+MixCls(e) == IF e.obs.lreg = e.obs.rreg THEN (IF e.warm THEN "same-registry-lru" ELSE "same-registry-cold")
+             ELSE IF e.obs.r = e.obs.rreg THEN (IF LeftLacks(e) THEN "right-fallback" ELSE IF e.warm THEN "right-lru" ELSE "right-cold")
              ELSE (IF e.warm THEN "other-lru" ELSE "other-cold")
 Fail(e, clause, victim, cls) ==
   PrintT(ToJson([tag |-> "P-FAIL", tid |-> tid, l |-> l, clause |-> clause, op |-> e.op,
                  actor |-> proute[e.r], victim |-> victim, cls |-> cls]))
 Detail(e) == CASE e.op = "binop" -> e.fn
                [] e.op = "rebind" -> IF e.bypass THEN "bypass_validation" ELSE "validated"
-               [] e.op = "convert" -> e.how
+               [] e.op \in {"convert", "handle"} -> e.how
                [] e.op \in {"unitcopy"} -> IF e.deep THEN "deep" ELSE "shallow"
                [] OTHER -> ""
 PReport(e) ==
   /\ \A r \in Victims(e) : Fail(e, "Frame", IF r = 0 THEN "default" ELSE proute[r], Detail(e))
-  /\ (e.r = 0 /\ e.op \in {"modify", "remove"} /\ e.obs.k # "raise") => Fail(e, "DefaultRefuses", "default", "")
+  /\ (pdef[e.r] /\ e.op \in {"modify", "remove"} /\ e.obs.k # "raise") => Fail(e, "DefaultRefuses", "default", e.sym)
   /\ (~e.dkeep) => Fail(e, "DefaultTable", "default_unit_registry.lut", Detail(e))
   /\ (~e.dlkeep) => Fail(e, "DefaultTable", "default_unit_symbol_lut", Detail(e))
   /\ (~e.usyskeep) => Fail(e, "DefaultTable", "unit_system_registry", Detail(e))
@@ -99,13 +107,13 @@ PReport(e) ==
   /\ (e.nsdig # Prev.nsdig) => Fail(e, "Namespace", "exported-objects", Detail(e))
   /\ (\E i \in DOMAIN e.nsnew : ~(DDef(e) /\ e.nsnew[i] = "foo")) => Fail(e, "Namespace", "new-attribute", Detail(e))
   /\ (e.conv # Prev.conv) => Fail(e, "BuiltinConversions", "default", Detail(e))
-  /\ (e.op = "binop" /\ e.obs.k = "res" /\ e.obs.r # e.r) => Fail(e, "MixedLeft", e.fn, MixCls(e))
+  /\ (e.op = "binop" /\ e.obs.k = "res" /\ e.obs.r # e.obs.lreg) => Fail(e, "MixedLeft", e.fn, MixCls(e))
 
 TraceNext ==
   \/ /\ tid <= Len(Traces) /\ l <= Len(Traces[tid].ev)
      /\ StepAction(Ev)
      /\ PReport(Ev)
-     /\ pgrp' = PGrp(Ev) /\ proute' = PRoute(Ev) /\ dfoo' = DFoo(Ev) /\ ddef' = DDef(Ev)
+     /\ pgrp' = PGrp(Ev) /\ proute' = PRoute(Ev) /\ pdef' = PDef(Ev) /\ dfoo' = DFoo(Ev) /\ ddef' = DDef(Ev)
      /\ sync' = (sync /\ TOk(Ev))
      /\ (sync /\ ~TOk(Ev)) => PrintT(ToJson([tag |-> "T-FAIL", tid |-> tid, l |-> l, op |-> Ev.op, model |-> last', observed |-> Ev.obs,
                                                rows |-> [r \in RegIds |-> IF regs'[r].live THEN ModelRows(r) ELSE <<>>],
@@ -120,6 +128,7 @@ TraceNext ==
      /\ memo' = [r \in RegIds |-> IF r = 0 THEN DefaultRegCache ELSE NoCache]
      /\ hist' = <<>> /\ last' = None
      /\ pgrp' = [r \in RegIds |-> r] /\ proute' = [r \in RegIds |-> IF r = 0 THEN "default" ELSE "none"]
+     /\ pdef' = [r \in RegIds |-> r = 0]
      /\ dfoo' = FALSE /\ ddef' = FALSE /\ sync' = TRUE
 TraceSpec == TraceInit /\ [][TraceNext]_tvars
 =============================================================================
